@@ -892,6 +892,8 @@ PUBLIC_ROOTS = [
     "_core:ArgumentParser.get_default",
     "_core:ArgumentParser.format_help",
     "_typehints:adapt_typehints",
+    "_namespace:dict_to_namespace",
+    "_namespace:namespace_to_dict",
     "_completions:ShtabAction.__call__",
     "_actions:_ActionHelpClassPath.__call__",
     "_actions:_ActionPrintConfig.__call__",
